@@ -466,21 +466,22 @@ def check_C02(ctx):
 ROUTES = ['EVAL', 'FWD', 'REV', 'DIFFAT', 'PEARLY', 'DEARLYAT', 'DEARLYALL']
 
 
-def add_bundle(b, e, p, v, with_traces=True):
+def add_bundle(b, e, p, v, with_traces=True, nf=''):
+    """nf='NF ': the implementation is given every integer parameter n as an integral float (3.0)"""
     es, ps = sx.to_sx(e), sx.point_sx(p)
     idx = {}
-    idx['EVAL'] = b.add('EVAL %s %s' % (ps, es))
-    idx['FWD'] = b.add('FWD %d %s %s' % (v, ps, es))
-    idx['REV'] = b.add('REV %s %s' % (ps, es))
-    idx['DIFFAT'] = b.add('DIFFAT %s %s' % (ps, es))
-    idx['PEARLY'] = b.add('PEARLY %d %s %s' % (v, ps, es))
-    idx['DEARLYAT'] = b.add('DEARLYAT %d %s %s' % (v, ps, es))
-    idx['DEARLYALL'] = b.add('DEARLYALL %s %s' % (ps, es))
+    idx['EVAL'] = b.add(nf + 'EVAL %s %s' % (ps, es))
+    idx['FWD'] = b.add(nf + 'FWD %d %s %s' % (v, ps, es))
+    idx['REV'] = b.add(nf + 'REV %s %s' % (ps, es))
+    idx['DIFFAT'] = b.add(nf + 'DIFFAT %s %s' % (ps, es))
+    idx['PEARLY'] = b.add(nf + 'PEARLY %d %s %s' % (v, ps, es))
+    idx['DEARLYAT'] = b.add(nf + 'DEARLYAT %d %s %s' % (v, ps, es))
+    idx['DEARLYALL'] = b.add(nf + 'DEARLYALL %s %s' % (ps, es))
     if with_traces:
         idx['PTRACE'] = b.add('PTRACE %d %s' % (v, es))
         idx['DTRACE'] = b.add('DTRACE %s' % es)
     if len(sx.var_ids(e)) <= 1:
-        idx['DERIV'] = b.add('DERIV %s %s' % (ps, es))
+        idx['DERIV'] = b.add(nf + 'DERIV %s %s' % (ps, es))
     return idx
 
 
@@ -552,8 +553,14 @@ def check_routes(ctx, prop):
         cases += more
     b = Batch()
     bundles = []
-    for e, p, v in cases:
-        idx = add_bundle(b, e, p, v)
+    nf_cases = []
+    if prop in ('C17', 'C06', 'C07'):
+        # the same questions with the integer parameters spelled as integral floats (NthRoot(u, 3.0))
+        nf_cases = [(e, p, v) for e, p, v in cases if any(h in ('NthPow', 'NthRoot') for h in sx.heads(e))]
+        rng.shuffle(nf_cases)
+        nf_cases = nf_cases[:max(60, len(cases) // 6)]
+    for k_, (e, p, v) in enumerate(cases + nf_cases):
+        idx = add_bundle(b, e, p, v, nf='NF ' if k_ >= len(cases) else '')
         if prop in ('C04', 'C06'):
             idx['FWDALL'] = {w: b.add('FWD %d %s %s' % (w, sx.point_sx(p), sx.to_sx(e))) for w in sx.var_ids(e)}
         if prop in ('C06',):
@@ -686,6 +693,8 @@ def check_routes(ctx, prop):
                         rep.oracle_fail('early component expression differs from Partial.as_expression()', b,
                                         [idx['PEXPR'], idx['DEXPR']])
     rep.stats.update({'at_outcome_' + k: v for k, v in kinds.items()})
+    if prop == 'C17':
+        bad_parameters(ctx, rep)
     if prop in ('C03', 'C04', 'C06', 'C07'):
         import props2
         keep = {'C03': ('pat', 'dat'), 'C04': ('located', 'dfat', 'at'),
@@ -695,6 +704,32 @@ def check_routes(ctx, prop):
         props2.history_correspondence(ctx, rep, sizes(tier, 300, 5000), keep, maxlen=sizes(tier, 12, 30),
                                       what='sequence', disturb=disturb)
     return rep
+
+
+def bad_parameters(ctx, rep):
+    """C17 at the edge of C16: constructor calls with a parameter outside the documented range.  The
+    constructor should refuse them (then nothing exists and C17 has nothing to say).  When one is
+    accepted, every route is driven on the object: a foreign exception escaping is a C17 failure."""
+    b = Batch()
+    idxs = []
+    pars = {'NthPow': [0, -1, -3, 0.0, 2.5, -2.0], 'NthRoot': [0, -1, -2, 0.0, 2.5, -3.0, 0.5],
+            'Exp': [0, 0.0, -1, -2.5, -0.0], 'Log': [0, 0.0, -1, -2.5, 1, 1.0, -0.0]}
+    for cls, ps in pars.items():
+        for par in ps:
+            for xv, yv in ((2, 3), (0.5, -1), (-2, 0.25), (0, 0), (1, 1)):
+                for inner in ('0', '1'):
+                    for outer in ('0', '1', '2', '3'):
+                        idxs.append(b.add('BADPARAM %s %s %s %s %s %s' % (cls, sx.num_sx(par), sx.num_sx(xv), sx.num_sx(yv), inner, outer)))
+    b.run(model=False)
+    for i in idxs:
+        rep.cases += 1
+        r = b.impl[i]
+        rep.stats['bad_parameter_' + r.split(' ')[0]] += 1
+        if r.startswith('ACCEPTED') and 'PYERR' in r and 'Overflow' not in r:
+            rep.oracle_fail('a constructor accepted a parameter outside its range and a query on the object then '
+                            'raised a foreign exception: %s' % r, b, [i])
+        elif r.startswith('ERROR'):
+            rep.oracle_fail('runner error on a bad-parameter case: %s' % r, b, [i])
 
 
 def _close_lines(a, c):
